@@ -262,7 +262,8 @@ func c14HostsOf(family int) []string {
 			add(e)
 		}
 	}
-	for _, s := range []string{"", "*", "zz.com", "digit.b.com", "x.b.com", ".a.com", "7.a.com:80", "x1.a.com.", "com", ":80", ":", "12.b.net", "xy.b.net", "XY.B.NET"} {
+	for _, s := range []string{"", "*", "zz.com", "digit.b.com", "x.b.com", ".a.com", "7.a.com:80", "x1.a.com.", "com", ":80", ":", "12.b.net", "xy.b.net", "XY.B.NET",
+		"\u212a.a.com:80", "\u212a\u212a\u212a.a.com:8080", "[\u212a.a.com]:80"} { // KELVIN SIGN: 3 bytes, lower-cases to the 1-byte k
 		add(s)
 	}
 	return out
